@@ -348,6 +348,8 @@ class IH5InnerNode(IH5Node):
     def get(self, key: str, default=None):
         try:
             return self[key]
+        except ValueError:
+            return default  # e.g. path leads through a dataset: nothing can exist there
         except KeyError as e:
             if str(e).find("not open") < 0:
                 return default
@@ -370,7 +372,10 @@ class IH5InnerNode(IH5Node):
 
     def __contains__(self, key: str):
         self._guard_key(key)
-        return self._find(key) is not None
+        try:
+            return self._find(key) is not None
+        except ValueError:
+            return False  # path leads through a dataset: nothing can exist there
 
     def __iter__(self):
         return iter(self._children().keys())
